@@ -5,7 +5,7 @@
 From Coq Require Import List Arith Bool.
 Import ListNotations.
 From C17 Require Import Sem Progs Static Annot FutRaw.
-From C17 Require Exec.
+From C17 Require Exec ExecLive.
 
 (* Data-race freedom of the model: whenever a thread is about to execute an instruction that reads
    or writes a shared variable or the callback queue, it owns the mutex that protects it
@@ -99,8 +99,8 @@ Print Assumptions c17_future_raw.
    1. no hazard is reachable (no pop from an empty queue, no run without a callback, no bad unlock, ...);
    2. no callback id is queued twice, and ran is a PREFIX of subm: every callback is run at most once and
       callbacks are run in exactly the order they were queued (hence in submission order per producer);
-   3. a callback is run only by the consumer thread or, after the consumer was joined, by the owner in
-      Stop()/~ExecutorThread - never by the thread that submitted it (never inside Execute);
+   3. a callback is run only by thread 1 (the consumer) or thread 0 (the owner, whose only Run instructions are
+      in RunRemaining, i.e. in Stop()/~ExecutorThread) - never by the thread that submitted it (never inside Execute);
    4. each producer's callbacks are queued with sequence numbers 0,1,2,...;
    5. once the owner has finished (Stop and the destructor returned) every thread has finished, the queue
       is empty and ran = subm: every submitted callback has run exactly once. *)
@@ -114,3 +114,24 @@ Theorem c17_exec_once : forall lims s, reach P (init_exec lims) s ->
                             forall t, t < nthr s -> stat (thr s t) = Done).
 Proof. exact Exec.exec_once. Qed.
 Print Assumptions c17_exec_once.
+
+(* ---- no lost wake-up / no deadlock, same scenario, every schedule.
+   The wake-up invariant: whenever the consumer sleeps on the condition variable, either the queue is empty
+   and no shutdown has been requested, or somebody is about to signal it: the owner between setting
+   m_shutdown and Signal (pc 17/18 of Stop), or a producer between its push and Signal (pc 3/4 of Execute). *)
+Theorem c17_wakeup_invariant : forall lims s, reach P (init_exec lims) s ->
+  ExecInv.is_asleep (stat (thr s 1)) = true ->
+  (que s 0 = [] /\ var s SHUTDOWN = 0) \/
+  (stat (thr s 0) = Ready /\ ExecInv.inl (pc (thr s 0)) [17;18] = true) \/
+  (exists i, i < length lims /\ stat (thr s (2 + i)) = Ready /\ ExecInv.inl (pc (thr s (2 + i))) [3;4] = true).
+Proof. exact ExecLive.wakeup_inv. Qed.
+Print Assumptions c17_wakeup_invariant.
+
+(* Deadlock freedom as an invariant: in every reachable state in which the owner thread has not finished
+   (by c17_exec_once, clause 5, the owner finishing is exactly the terminal state: every thread has finished),
+   some thread can take a real step - not a spurious wake-up.  So no reachable non-terminal state has every
+   thread blocked on a mutex, a condition variable or a join. *)
+Theorem c17_no_lost_wakeup : forall lims s, reach P (init_exec lims) s -> stat (thr s 0) <> Done ->
+  exists t pick s', exec P s (LStep t pick) = Some s'.
+Proof. exact ExecLive.no_deadlock. Qed.
+Print Assumptions c17_no_lost_wakeup.
